@@ -377,11 +377,7 @@ func (m *monitor) build(idx int, s *TxSpec, nonceAhead map[common.Address]uint64
 				m.addUni(crypto.CreateAddress(src, nonce-1), "new-alt")
 			}
 			input = compile(s.Prog, m.resolve)
-			var ch []common.Address
-			children(s.Prog, b.created, 1, m.resolve, &ch)
-			for _, c := range ch {
-				m.addUni(c, "child")
-			}
+			m.predict(s.Prog, b.created, 1, 0)
 		} else {
 			ta := m.resolve(s.To)
 			m.addUni(ta, s.To)
@@ -392,22 +388,10 @@ func (m *monitor) build(idx int, s *TxSpec, nonceAhead map[common.Address]uint64
 			for _, w := range s.Data {
 				input = append(input, word(w, m.resolve)...)
 			}
-			// a called program deployed earlier in the sequence can create as well
-			if strings.HasPrefix(s.To, "new:") {
-				var k int
-				fmt.Sscanf(s.To[4:], "%d", &k)
-				if k < len(m.wit.Specs) {
-					for _, ac := range m.wit.Specs[k].Prog {
-						if ac.Op == "return" {
-							var ch []common.Address
-							children(ac.Runtime, ta, m.adb.GetNonce(ta), m.resolve, &ch)
-							for _, c := range ch {
-								m.addUni(c, "child")
-							}
-						}
-					}
-				}
-			}
+			// code deployed earlier in the sequence can create as well, in its own
+			// context or (through a delegating relay) in the relay's
+			call := Action{Op: "call", To: s.To, Args: s.Data}
+			m.predict([]Action{call}, src, nonce, 0)
 		}
 		val := m.resolveAmt(src, s.Value)
 		if v, ok := parseTokens(val); ok {
@@ -520,6 +504,81 @@ func parseTokens(s string) (*big.Int, bool) {
 		v.Neg(v)
 	}
 	return v, true
+}
+
+// runtimeOf returns the runtime program deployed by spec k of the current sequence.
+func (m *monitor) runtimeOf(ref string) ([]Action, bool) {
+	if !strings.HasPrefix(ref, "new:") {
+		return nil, false
+	}
+	var k int
+	fmt.Sscanf(ref[4:], "%d", &k)
+	if k < 0 || k >= len(m.wit.Specs) {
+		return nil, false
+	}
+	p := m.wit.Specs[k].Prog
+	if len(p) > 0 && p[len(p)-1].Op == "return" {
+		return p[len(p)-1].Runtime, true
+	}
+	return nil, false
+}
+
+var delegatingRelays = map[string]bool{"c:RelayDC": true, "c:RelayDCRevert": true, "c:RelayCC": true, "c:RelayCCD": true, "c:StakeHub": true, "c:StakeHub2": true}
+
+// predict adds to the universe every address the program can create when it
+// runs in context ctx (whose nonce is nonce at that moment): its own CREATE /
+// CREATE2 children (recursively), and the children of every piece of code
+// deployed earlier in the sequence that it can reach — run in that code's own
+// context (CALL), in ctx (CALLCODE/DELEGATECALL) or in a delegating relay's.
+func (m *monitor) predict(prog []Action, ctx common.Address, nonce uint64, depth int) {
+	if depth > 5 {
+		return
+	}
+	n := nonce
+	for _, ac := range prog {
+		switch ac.Op {
+		case "create":
+			// a failed CREATE may or may not have consumed the nonce: cover the neighbours
+			for _, k := range []uint64{n - 1, n, n + 1} {
+				if k == ^uint64(0) {
+					continue
+				}
+				ch := crypto.CreateAddress(ctx, k)
+				m.addUni(ch, "child")
+				m.predict(ac.Init, ch, 1, depth+1)
+			}
+			n++
+		case "create2":
+			init := compile(ac.Init, m.resolve)
+			var salt [32]byte
+			sb := new(big.Int).SetUint64(ac.Salt).Bytes()
+			copy(salt[32-len(sb):], sb)
+			ch := crypto.CreateAddress2(ctx, salt, crypto.Keccak256(init))
+			m.addUni(ch, "child")
+			m.predict(ac.Init, ch, 1, depth+1)
+			n++
+		case "return":
+			// the deployed runtime can be called later in the same transaction (then_call)
+			m.predict(ac.Runtime, ctx, n, depth+1)
+		case "call", "callcode", "delegatecall", "staticcall":
+			refs := append([]string{ac.To}, ac.Args...)
+			for i, ref := range refs {
+				rt, ok := m.runtimeOf(ref)
+				if !ok {
+					continue
+				}
+				own := m.resolve(ref)
+				m.predict(rt, own, m.adb.GetNonce(own), depth+1)
+				if i == 0 && (ac.Op == "callcode" || ac.Op == "delegatecall") {
+					m.predict(rt, ctx, n, depth+1)
+				}
+				if i > 0 && delegatingRelays[refs[i-1]] {
+					relay := m.resolve(refs[i-1])
+					m.predict(rt, relay, m.adb.GetNonce(relay), depth+1)
+				}
+			}
+		}
+	}
 }
 
 // ---------------------------------------------------------------------------
